@@ -13,6 +13,7 @@ mod fam_cursor;
 mod fam_meta;
 mod fam_hexenc;
 mod fam_ids;
+mod fam_sync;
 mod gen;
 mod model;
 
@@ -41,6 +42,7 @@ fn main() {
         "meta" => fam_meta::run(&mut rng, &tier, out),
         "hexenc" => fam_hexenc::run(&mut rng, &tier, out),
         "ids" => fam_ids::run(&mut rng, &tier, out),
+        "sync" => fam_sync::run(&mut rng, &tier, out),
         _ => {
             eprintln!("unknown family {}", fam);
             std::process::exit(2);
